@@ -272,6 +272,15 @@ fn filter_attrs(attrs: &mut Vec<Attribute>, cfg: &AttrCfg, rules: &mut Rules) ->
                 Ok(())
             });
             rules.hit("R1.derive_reduced");
+            // `+Name` in the contract's derive list adds a Verus marker derive (e.g. Structural: the
+            // derived `==` is structural equality)
+            for d in cfg.keep_derives.iter() {
+                if let Some(extra) = d.strip_prefix('+') {
+                    let id = Ident::new(extra, Span::call_site());
+                    kept.push(parse_quote!(#id));
+                    rules.hit("R1.verus_marker_derive_added");
+                }
+            }
             if !kept.is_empty() {
                 let attr: Attribute = parse_quote!(#[derive(#(#kept),*)]);
                 out.push(attr);
@@ -498,7 +507,7 @@ impl<'a> VisitMut for LetChainPass<'a> {
 // ---------------------------------------------------------------------------------------------
 // R5: `let PAT = loop { .. break V; .. };`  ->  `let __vx_brkN; loop { .. { __vx_brkN = V; break } .. } let PAT = __vx_brkN;`
 
-struct BreakValuePass<'a> { rules: &'a mut Rules, counter: u64 }
+struct BreakValuePass<'a> { rules: &'a mut Rules, counter: u64, types: BTreeMap<u64, String> }
 struct BreakRewriter { var: Ident, depth: u32, label: Option<Lifetime> }
 impl VisitMut for BreakRewriter {
     fn visit_expr_mut(&mut self, e: &mut Expr) {
@@ -549,7 +558,10 @@ impl<'a> VisitMut for BreakValuePass<'a> {
                     let mut rw = BreakRewriter { var: var.clone(), depth: 0, label: lp.label.as_ref().map(|l| l.name.clone()) };
                     rw.visit_block_mut(&mut lp.body);
                     let _ = attrs;
-                    out.push(parse_quote!(let #var;));
+                    match self.types.get(&n).and_then(|t| t.parse::<TokenStream>().ok()) {
+                        Some(ty) => out.push(parse_quote!(let #var: #ty;)),
+                        None => out.push(parse_quote!(let #var;)),
+                    }
                     out.push(Stmt::Expr(Expr::Loop(lp), None));
                     out.push(parse_quote!(let #pat = #var;));
                     continue;
@@ -995,7 +1007,9 @@ fn process_fn(
     // R4
     LetChainPass { rules }.visit_block_mut(block);
     // R5
-    BreakValuePass { rules, counter: 0 }.visit_block_mut(block);
+    let mut brk_types: BTreeMap<u64, String> = BTreeMap::new();
+    if let Some(Value::Object(m)) = spec.get("brk_types") { for (k, v) in m { if let (Ok(o), Some(s)) = (k.parse::<u64>(), v.as_str()) { brk_types.insert(o, s.to_string()); } } }
+    BreakValuePass { rules, counter: 0, types: brk_types }.visit_block_mut(block);
     // R6
     let which = match spec.get("for_to_loop") {
         Some(Value::String(s)) if s == "all" => ForSel::All,
